@@ -40,8 +40,11 @@ func (it *countingIter) Next() (int, bool) {
 func parmapWorld(r *R) {
 	isStream := r.Choose(3, "variant") != 0
 	n := r.Choose(16, "n")
-	parallelism := []int{2, -1, 0, 1, 4, 7}[r.Choose(6, "parallelism")]
-	bufferSize := []int{2, -1, 0, 1, 4, 7}[r.Choose(6, "buffersize")]
+	if r.Choose(4, "long") == 3 {
+		n = 16 + r.Choose(10, "n-long") // long enough for a deep reorder heap
+	}
+	parallelism := []int{2, -1, 0, 1, 4, 7, 9, 12}[r.Choose(8, "parallelism")]
+	bufferSize := []int{2, -1, 0, 1, 4, 7, 9, 12}[r.Choose(8, "buffersize")]
 	eff := parallelism
 	if eff <= 0 {
 		eff = r.Cfg.GOMAXPROCS
@@ -66,8 +69,23 @@ func parmapWorld(r *R) {
 	}
 	plans := make([]fplan, n)
 	firstFail := -1
+	// "slow head": one early item takes very long while the following ones finish in a random order,
+	// so that the reorder heap fills up with many out-of-order results
+	slowHead := -1
+	if n > 0 && r.Choose(3, "slow-head") == 2 {
+		slowHead = r.Choose(3, "slow-head-at") % n
+	}
 	for i := range plans {
 		p := fplan{spin: r.Choose(3, "fspin")}
+		if slowHead >= 0 {
+			if i == slowHead {
+				p.latency = 900 * time.Millisecond
+			} else {
+				p.latency = time.Duration(r.Choose(9, "lat-rand")) * 9 * time.Millisecond
+			}
+			plans[i] = p
+			continue
+		}
 		switch r.Choose(4, "latency") {
 		case 2:
 			p.latency = time.Duration(1+r.Choose(9, "lat-d")) * 9 * time.Millisecond
@@ -201,8 +219,14 @@ func parmapWorld(r *R) {
 			src.Delay[p] = time.Duration(1+r.Choose(6, "delay-d")) * 7 * time.Millisecond
 		}
 	}
+	blockAt := -1
+	if r.Choose(6, "src-block") == 5 {
+		// the source goes idle at this position: its Next only returns once its context is done
+		blockAt = r.Choose(n+1, "src-block-at")
+		src.BlockAt = blockAt
+	}
 	srcErrAt := -1
-	if r.Choose(5, "srcerr") == 4 {
+	if blockAt < 0 && r.Choose(5, "srcerr") == 4 {
 		src.Err = NewErr("srcE")
 		src.ErrAt = r.Choose(n+1, "srcerr-at")
 		srcErrAt = src.ErrAt
@@ -219,6 +243,14 @@ func parmapWorld(r *R) {
 	closeAfter := -1
 	if r.Choose(3, "close-early") == 2 {
 		closeAfter = r.Choose(n+1, "close-after")
+	}
+	if blockAt >= 0 {
+		// only the results of the items before the idle point can ever arrive (fewer if f fails)
+		limit := blockAt
+		if firstFail >= 0 && firstFail < limit {
+			limit = firstFail
+		}
+		closeAfter = r.Choose(limit+1, "close-after-idle")
 	}
 	cs := &Calls{r: r}
 	done := false
